@@ -71,6 +71,23 @@ type PathSpec struct {
 	Segs  []qs `json:"segs"`
 	Trail bool `json:"trail"`
 	Query []KV `json:"query,omitempty"`
+	// Loose: the static query is written the way people write it by hand, with '/', ':' and
+	// '.' left unescaped in the values (legal in a query string): ?cb=http://h/p
+	Loose bool `json:"loose,omitempty"`
+}
+
+// looseEscape escapes a query value except for the characters users leave as they are.
+func looseEscape(v string) string {
+	var sb strings.Builder
+	for i := 0; i < len(v); i++ {
+		switch c := v[i]; c {
+		case '/', ':', '.', '@':
+			sb.WriteByte(c)
+		default:
+			sb.WriteString(url.QueryEscape(v[i : i+1]))
+		}
+	}
+	return sb.String()
 }
 
 // Render writes the spec the way a user writes a base path / path pattern.
@@ -96,7 +113,11 @@ func (p PathSpec) Render() string {
 		}
 		sb.WriteString(url.QueryEscape(string(kv.K)))
 		sb.WriteByte('=')
-		sb.WriteString(url.QueryEscape(string(kv.V)))
+		if p.Loose {
+			sb.WriteString(looseEscape(string(kv.V)))
+		} else {
+			sb.WriteString(url.QueryEscape(string(kv.V)))
+		}
 	}
 	return sb.String()
 }
@@ -302,21 +323,50 @@ func substitute(seg string, params []KV, names []string) expSeg {
 // More than one only where the text leaves the shape open: a pattern without any
 // segment ("" or "/") may or may not leave a trailing slash.
 func expectedPaths(c *Case) [][]expSeg {
-	var segs []expSeg
+	// a base path written with empty, '.' or '..' segments: the text does not say whether
+	// they are kept or resolved - both shapes are accepted
+	baseAlts := [][]string{nil}
 	for _, s := range c.Base.Segs {
-		segs = append(segs, expSeg{text: string(s)})
+		baseAlts[0] = append(baseAlts[0], string(s))
 	}
-	for _, s := range c.Pattern.Segs {
-		segs = append(segs, substitute(string(s), c.Params, c.Names))
-	}
-	if len(c.Pattern.Segs) > 0 {
-		if c.Pattern.Trail {
-			segs = append(segs, expSeg{})
+	var cleaned []string
+	dotty := false
+	for _, s := range baseAlts[0] {
+		switch s {
+		case "", ".":
+			dotty = true
+		case "..":
+			dotty = true
+			if len(cleaned) > 0 {
+				cleaned = cleaned[:len(cleaned)-1]
+			}
+		default:
+			cleaned = append(cleaned, s)
 		}
-		return [][]expSeg{segs}
 	}
-	with := append(append([]expSeg{}, segs...), expSeg{})
-	return [][]expSeg{segs, with}
+	if dotty {
+		baseAlts = append(baseAlts, cleaned)
+	}
+	var out [][]expSeg
+	for _, b := range baseAlts {
+		var segs []expSeg
+		for _, s := range b {
+			segs = append(segs, expSeg{text: s})
+		}
+		for _, s := range c.Pattern.Segs {
+			segs = append(segs, substitute(string(s), c.Params, c.Names))
+		}
+		if len(c.Pattern.Segs) > 0 {
+			if c.Pattern.Trail {
+				segs = append(segs, expSeg{})
+			}
+			out = append(out, segs)
+			continue
+		}
+		with := append(append([]expSeg{}, segs...), expSeg{})
+		out = append(out, segs, with)
+	}
+	return out
 }
 
 func renderSegs(s []expSeg) string {
@@ -570,27 +620,54 @@ func judgeQuery(c *Case, o observation) *failure {
 	return nil
 }
 
-// acceptable schemes. The text forces: https when it is among several offered
-// schemes; otherwise an offered scheme. It does not say whether the transport's
-// or the operation's list is "the offer", so each non-empty list is a candidate
-// offer and the union of what they allow is accepted. Nothing offered: not judged.
+// acceptable schemes. The text: "https is chosen whenever it is among several offered
+// schemes". The transport's (Runtime's) list is an offer under every reading in which it
+// means anything, so when IT holds several schemes including https, https is forced whatever
+// the operation declares (an operation that declares a subset must not downgrade the URL).
+// Otherwise, whether the transport's or the operation's list is "the offer" is left open:
+// each non-empty list is a candidate and what either allows is accepted (https if that list
+// has several entries including https, else any of its members). Nothing offered: not judged.
+// Empty-string entries are dropped; when a list holds one, only the forced-https clause is judged.
 func acceptableSchemes(c *Case) map[string]bool {
-	acc := map[string]bool{}
-	for _, l := range [][]string{c.Rt, c.Op} {
-		if len(l) == 0 {
-			continue
+	hasEmpty := false
+	eff := func(l []string) []string {
+		var out []string
+		for _, s := range l {
+			if s == "" {
+				hasEmpty = true
+				continue
+			}
+			out = append(out, s)
 		}
-		hasHTTPS := false
+		return out
+	}
+	forced := func(l []string) bool {
+		if len(l) < 2 {
+			return false
+		}
 		for _, s := range l {
 			if s == "https" {
-				hasHTTPS = true
+				return true
 			}
 		}
-		if hasHTTPS && len(l) > 1 {
-			acc["https"] = true
-			continue
-		}
-		for _, s := range l {
+		return false
+	}
+	rt, op := eff(c.Rt), eff(c.Op)
+	acc := map[string]bool{}
+	switch {
+	case forced(rt) || (len(rt) == 0 && forced(op)):
+		acc["https"] = true
+		return acc
+	case hasEmpty:
+		return nil
+	}
+	for _, s := range rt {
+		acc[s] = true
+	}
+	if forced(op) {
+		acc["https"] = true
+	} else {
+		for _, s := range op {
 			acc[s] = true
 		}
 	}
